@@ -21,6 +21,14 @@ CHECKS = {
             "All well-formed expression token strings up to the stated number of operand positions (every operand tuple, stacked unary signs, operator tuple, bracket span set, function application at every span, with and without blanks) and every numeric-literal string up to a length bound accepted by the grammar-derived lexer are evaluated by the implementation and by an independent reference (precedence climbing from the property's binding order; exact ints, IEEE doubles, cmath). Complete for the stated alphabets/bounds.",
             "Trusted: reference parser/evaluator, math/cmath, fractions. Tolerance 1e-12 x largest intermediate + sensitivity probe; out-of-domain cases dropped by the reference only.",
             "DESIGN.md section 5 C03"),
+    "C05": ("exploration", "bounded-exhaustive enumeration of declarations (type x shape x parameter placement x ragged vectors x indices) with a by-construction oracle",
+            "Every scalar declaration of the type x initialiser table, every array declaration up to 4x4 (thorough 5x5) with every declared-shape variant and every subset of parameter positions (bounded for large arrays), every non-constant row-length vector, every in-range index: layout, dtype kind, shape, refusal of ragged/contradicting shapes. Complete for the stated bounds.",
+            "Trusted: the by-construction expectation (distinct element values). dtype of arrays containing parameters not constrained.",
+            "DESIGN.md section 5 C05"),
+    "C06": ("exploration", "bounded-exhaustive enumeration of loop headers x bodies x contexts, differential against the textual unrolling",
+            "Every loop header (ranges incl. empty and overshooting steps, value lists in 3 bracket styles, 4 types) x every body shape x 4 contexts is loaded and compared, operation by operation (exact canonical digests), with the load of its textual unrolling; loop-variable scoping and wrong-type refusals checked for every header. Complete for the stated alphabet.",
+            "Trusted: the unrolling transformation (string substitution of a bracketed literal) and Python range semantics.",
+            "DESIGN.md section 5 C06"),
     # id: (category, technique, text, note, design_ref)
     "C02": ("exploration", "bounded-exhaustive enumeration of script prefixes (BFS over item sequences) vs reference denotation",
             "Every item sequence over the statement menu up to the stated depth is rendered, loaded by the real parser/evaluator and compared with an independently written reference denotation; complete for the stated alphabet and depth, nothing beyond.",
